@@ -45,7 +45,7 @@ def zones_wf(mgr):
 contract(MGR + '.global_zone', props=['C05'], raises={'KeyError': 'not ("GLOBAL" in self._zones)'},
          ensures=['result is mapping(self._zones)["GLOBAL"]'], modifies=[])
 
-contract(MGR + '.create_zone', props=['C05'],
+contract(MGR + '.create_zone', props=['C05', 'C04'],
          requires=['zones_wf(self)', 'address_bits >= 0'],
          # a zone declared in source is rejected if its name is taken, if it is not contained in GLOBAL, if it is inverted
          # or exceeds the address width
